@@ -699,6 +699,12 @@ class KeychainSqlite3(Keychain):
         if name not in self:
             raise KeyError(f'Identity {Name.to_str(id_name)} does not exist')
         identity = self[name]
+        if kwargs.get('key_id'):
+            # An explicit key id may name a key that is already listed:
+            # refuse before its private key is replaced
+            key_name = self.tpm.construct_key_name(name, b'', **kwargs)
+            if key_name in identity:
+                raise KeyError(f'Key {Name.to_str(key_name)} already exists')
         key_name, pub_key = self.tpm.generate_key(name, key_type, **kwargs)
         signer = self.tpm.get_signer(key_name)
         cert_name, cert_data = self_sign(key_name, pub_key, signer)
